@@ -84,7 +84,8 @@ def h_region(ename, sub, natoms=2, sizes=(20, 10), check_io=False):
         if check_io:
             fd, fn_ = tempfile.mkstemp(prefix='verif_nl_'); os.close(fd)
             try:
-                nl.dump(fn_)
+                open(fn_, 'w').write('# left over from an earlier run\n0 1 2\n')
+                nl.dump(fn_)                 # the target exists and is not empty: it is replaced, not appended to
                 nl2 = am.NeighborList(model=fn_)
                 same = len(nl2) == natoms and all([int(v) for v in nl2[i]] == [int(v) for v in lists[i]] for i in range(natoms)) and \
                     [int(c) for c in nl2.coord] == [int(c) for c in nl.coord]
